@@ -59,7 +59,8 @@ class BaseFiles(Generic[Interface]):
             os.path.join(self.directory, os.path.join(*path.split("/")))
         )
 
-        if path == "/":
+        if path.endswith("/"):
+            # abspath() drops a trailing slash; a directory URL keeps it
             abspath += "/"
 
         relpath = os.path.relpath(abspath, self.directory)
